@@ -410,3 +410,7 @@ def run(ctx, R):
     r3(ctx, R)
     r4(ctx, R)
     r5(ctx, R)
+    # R8 (shared with C05.R7): `use m, only:` offers nothing of m - the reader keeps an empty ONLY list distinguishable from none
+    from .c05 import r7 as _only_list_recorded
+
+    _only_list_recorded(ctx, R, rule="C12.R8")
